@@ -998,6 +998,21 @@ func (e *attrExec) oracleC11(line string, m *atJModel, ast *dbc.File) {
 		return
 	}
 	class := atLossClass(m)
+	if class == "reserved-name" || class == "same-name" {
+		// the two recorded losses (D83, D84) explain a difference only if the model WITHOUT the
+		// attributes they concern round-trips: otherwise something else is lost as well
+		if m2 := atWithoutLossy(m); m2 != nil {
+			if _, bus2, ast2 := atExport(m2); bus2 != nil {
+				f2 := atBaseFile()
+				f2.Nodes, f2.Messages = ast2.Nodes, ast2.Messages
+				f2.Attributes, f2.AttributeDefaults, f2.AttributeValues = ast2.Attributes, ast2.AttributeDefaults, ast2.AttributeValues
+				out2, _ := atImportFile(f2, atKeysOf(m2))
+				if out2 != "ok "+atShowModel(atNorm(m2)) {
+					class = "other-beside-" + class
+				}
+			}
+		}
+	}
 	if back == nil {
 		e.find("C11", "c11-attr:"+class+":reimport-refused", sprintf("%s | %s", out, eiFirst(line, 600)))
 		return
@@ -1739,4 +1754,46 @@ func (attrStream) Tag(lines, outs []string) (bool, []string) {
 		}
 	}
 	return true, tags
+}
+
+
+// atWithoutLossy returns a copy of the model without the assignments the recorded losses concern:
+// attributes named like a well-known one, and attributes whose name is used by two definitions
+// (or twice on one entity).
+func atWithoutLossy(m *atJModel) *atJModel {
+	cp := &atJModel{}
+	if err := json.Unmarshal([]byte(encJSON(m)), cp); err != nil {
+		return nil
+	}
+	defs := map[string]string{}
+	dup := map[string]bool{}
+	for _, l := range atAllAsgs(cp) {
+		names := map[string]bool{}
+		for i := range l {
+			d := &l[i].D
+			if names[d.N] {
+				dup[d.N] = true
+			}
+			names[d.N] = true
+			key := encJSON(d)
+			if old, ok := defs[d.N]; ok && old != key {
+				dup[d.N] = true
+			}
+			defs[d.N] = key
+		}
+	}
+	keep := func(l []atJAsg) []atJAsg {
+		out := l[:0:0]
+		for i := range l {
+			if !atReserved[l[i].D.N] && !dup[l[i].D.N] {
+				out = append(out, l[i])
+			}
+		}
+		return out
+	}
+	cp.Bus = keep(cp.Bus)
+	for i := range cp.Ents {
+		cp.Ents[i].A = keep(cp.Ents[i].A)
+	}
+	return cp
 }
